@@ -8,6 +8,7 @@ import (
 	"strings"
 	"sync"
 
+	"google.golang.org/protobuf/reflect/protoreflect"
 	"google.golang.org/protobuf/types/dynamicpb"
 
 	"verif/internal/corpus"
@@ -23,7 +24,7 @@ import (
 func init() { Registry["C07"] = c07 }
 
 // tsProblems groups checker problems by symptom (one finding per symptom per case).
-func reportTS(c *Ctx, caseID string, probs []tstype.Problem, rp map[string]any) {
+func reportTS(c *Ctx, caseID string, probs []tstype.Problem, rp map[string]any, md ...protoreflect.MessageDescriptor) {
 	seen := map[string]bool{}
 	for _, p := range probs {
 		if seen[p.Symptom] {
@@ -40,7 +41,11 @@ func reportTS(c *Ctx, caseID string, probs []tstype.Problem, rp map[string]any) 
 			all = append(all, q.Symptom+" "+q.Path)
 		}
 		rp2["all_problems"] = all
-		c.R.Violate(caseID, p.Symptom, depthOf(p.Path), rp2)
+		det := depthOf(p.Path)
+		if len(md) > 0 && md[0] != nil {
+			det = "role:" + jsonmap.RolePath(md[0], p.Path)
+		}
+		c.R.Violate(caseID, p.Symptom, det, rp2)
 	}
 }
 
@@ -156,7 +161,7 @@ func c07(c *Ctx) {
 					if err == nil && resp.Status == 200 {
 						if t, perr := jsonmap.Parse(resp.Body); perr == nil {
 							probs := chk.CheckNamed(t, sig[1])
-							reportTS(c, caseID, probs, map[string]any{"proto": protoText, "rpc": rpc, "declared_result_type": sig[1], "declaration": typeText(cm, sig[1]), "wire_json": string(resp.Body)})
+							reportTS(c, caseID, probs, map[string]any{"proto": protoText, "rpc": rpc, "declared_result_type": sig[1], "declaration": typeText(cm, sig[1]), "wire_json": string(resp.Body)}, ctxMD)
 							c.R.Decided(caseID)
 							sampleOnce.Do(func() {
 								c.R.Sample(map[string]any{"case": caseID, "declared_result_type": sig[1], "declaration": typeText(cm, sig[1]), "wire_json": string(resp.Body), "problems": len(probs)})
@@ -185,7 +190,7 @@ func c07(c *Ctx) {
 					if err == nil && accepted && resp.Status == 200 {
 						t, _ := jsonmap.Parse(body)
 						probs := chk.CheckNamed(t, sig[0])
-						reportTS(c, caseID, probs, map[string]any{"proto": protoText, "rpc": rpc, "declared_request_type": sig[0], "declaration": typeText(cm, sig[0]), "accepted_request_json": string(body)})
+						reportTS(c, caseID, probs, map[string]any{"proto": protoText, "rpc": rpc, "declared_request_type": sig[0], "declaration": typeText(cm, sig[0]), "accepted_request_json": string(body)}, ctxMD)
 						c.R.Decided(caseID)
 					}
 				}
